@@ -670,8 +670,8 @@ class World(object):
             self.img[nm] = cells
         self.log = []
         self.tags = threading.local()      # set by the interposition on LayerRenderer._render_layer
-        self.gate = None                   # (slow layer name, release layer name): schedule for concurrent rendering
-        self.released = threading.Event()
+        self.gate = None                   # completion order of the upstream answers (layer names, first answers first)
+        self.done = {}                     # layer name -> Event, set when the request for it was answered
 
     def render(self, layers, transparent, bbox, size, url=None):
         # the two upstream servers render different content for the same layer name
@@ -701,14 +701,17 @@ class World(object):
         size = (int(q['width']), int(q['height']))
         base = u.scheme + '://' + u.netloc + u.path
         self.log.append((base, layers, tr, getattr(self.tags, 'ids', None)))
-        if self.gate and self.gate[0] in layers:
-            # this upstream answers only after the other one has answered (and its result was handed over)
-            self.released.wait(0.5)
+        gate = self.gate or ()
+        pos = [k for k, nm in enumerate(gate) if nm in layers]
+        if pos and max(pos) > 0:
+            # this upstream answers only after the one before it in the schedule has answered (and its result was
+            # handed over to the pool)
+            self.done[gate[max(pos) - 1]].wait(0.5)
             time.sleep(0.05)
         b = io.BytesIO()
         self.render(layers, tr, bbox, size, base).save(b, 'png')
-        if self.gate and self.gate[1] in layers:
-            self.released.set()
+        for k in pos:
+            self.done[gate[k]].set()
         b.seek(0)
         b.headers = {'Content-type': 'image/png'}
         b.code = 200
@@ -804,7 +807,9 @@ def gen_config(rng, avoid_known):
             collect(ly.get('layers', []))
     collect(layers)
     return {'sources': sources, 'layers': layers, 'names': names,
-            'concurrency': rng.choice([2, 2, 3]) if rng.random() < 0.15 else 1}
+            'concurrency': rng.choice([2, 2, 3]) if rng.random() < 0.15 else 1,
+            # services.wms.bbox_srs: explicit extent of EPSG:4326; shifted requests reach beyond it
+            'srs_extent': [0, 0, W, W] if rng.random() < 0.2 else None}
 
 
 def write_config(cfg, d):
@@ -837,6 +842,8 @@ def write_config(cfg, d):
     wms_conf = {'md': {'title': 't'}, 'srs': ['EPSG:4326']}
     if cfg.get('concurrency', 1) > 1:
         wms_conf['concurrent_layer_renderer'] = cfg['concurrency']
+    if cfg.get('srs_extent'):
+        wms_conf['bbox_srs'] = [{'srs': 'EPSG:4326', 'bbox': cfg['srs_extent']}]
     conf = {'services': {'wms': wms_conf},
             'layers': cfg['layers'], 'sources': srcs,
             'globals': {'cache': {'base_dir': d + '/cache', 'lock_dir': d + '/locks'}, 'image': {'paletted': False}}}
@@ -928,11 +935,14 @@ Definition req_eqb (a b : Z * list Z) : bool := (fst a =? fst b) && list_eqb Z.e
 Fixpoint auth_of (l : list (Z * Z)) (k : Z) : Z :=
   match l with [] => 0 | (k', v) :: r => if k' =? k then v else auth_of r k end.
 """
-WMS_TYPE = ('list wlayer * list (Z * Z) * list (list Z * layer) * nat * ropts * list (Z * list Z) * image')
-WMS_CHECK = ("fun c => let '(req, auth, table, n, o, log, obs) := c in "
+WMS_TYPE = ('list wlayer * list (Z * Z) * list (list Z * layer) * nat * ropts * list (Z * list Z) * image * '
+            'option (list (option nat))')
+WMS_CHECK = ("fun c => let '(req, auth, table, n, o, log, obs, placement) := c in "
              "let rl := combined_layers (flat_map snd (select_layers_auth true (auth_of auth) req)) in "
              "let r := wms_map_auth true true (auth_of auth) (fun s => lookup_key table (s_ids s)) n o req in "
-             "list_eqb req_eqb (reqs_of rl) log && image_eqb (result_image r) obs")
+             "let img := match placement with Some pl => sub_image_source o (result_image r) pl "
+             "| None => result_image r end in "
+             "list_eqb req_eqb (reqs_of rl) log && image_eqb img obs")
 
 
 def fixed_scenarios():
@@ -995,13 +1005,26 @@ def fixed_scenarios():
                         (['l0', 'l4'], True, None, (0, 0), None, {'limit': 'l4', 'bbox': [0, -1, 2, W + 1]}),
                         (['l0', 'g1'], False, None, (0, 0), None, {'limit': 'l2', 'bbox': [1, -1, 3, W + 1]}),
                         (['l0', 'g1'], True, None, (0, 0), None, None)]))
+    # explicit SRS extent of the service, a clipped source, requests that reach beyond the extent
+    clipc = cfg({'s0': src(0, ['u0'], False), 's1': src(1, ['u1'], True, cov={'bbox': [1, 1, 4, 4], 'clip': True})},
+                [{'name': 'l0', 'title': 'l0', 'sources': ['s0']}, {'name': 'l1', 'title': 'l1', 'sources': ['s1']}])
+    clipc['srs_extent'] = [0, 0, W, W]
+    out.append((clipc, [(['l0', 'l1'], True, None, (0, 0)), (['l0', 'l1'], True, None, (2, 1)),
+                        (['l0', 'l1'], False, None, (-2, -1)), (['l1'], True, None, (1, -2)),
+                        (['l0', 'l1'], True, None, (-1, 2), None, {'limit': 'l0', 'bbox': [1, -3, 3, W + 3]})]))
     # concurrent rendering, more layers than renderer threads, the upstream of a lower layer answers last
     three = cfg({'s0': src(0, ['u0'], True), 's1': src(1, ['u1'], True), 's2': src(0, ['u2'], True)},
                 [{'name': 'l%d' % i, 'title': 'l', 'sources': ['s%d' % i]} for i in range(3)], concurrency=2)
-    out.append((three, [(['l0', 'l1', 'l2'], True, None, (0, 0), ('u0', 'u1')),
-                        (['l1', 'l0', 'l2'], False, None, (0, 0), ('u1', 'u0')),
-                        (['l0', 'l1', 'l2'], True, None, (0, 0), ('u2', 'u1')),
-                        (['l2', 'l1', 'l0'], False, (1, 2, 3), (0, 0), ('u2', 'u0'))]))
+    out.append((three, [(['l0', 'l1', 'l2'], True, None, (0, 0), ('u1', 'u0')),
+                        (['l1', 'l0', 'l2'], False, None, (0, 0), ('u0', 'u1')),
+                        (['l0', 'l1', 'l2'], True, None, (0, 0), ('u1', 'u2')),
+                        (['l2', 'l1', 'l0'], False, (1, 2, 3), (0, 0), ('u0', 'u2'))]))
+    # as many renderer threads as layers: every completion order of the three upstream answers
+    import itertools
+    three3 = cfg({'s0': src(0, ['u0'], True), 's1': src(1, ['u1'], True), 's2': src(0, ['u2'], True)},
+                 [{'name': 'l%d' % i, 'title': 'l', 'sources': ['s%d' % i]} for i in range(3)], concurrency=3)
+    out.append((three3, [(['l0', 'l1', 'l2'], k % 2 == 0, None, (0, 0), perm)
+                         for k, perm in enumerate(itertools.permutations(['u0', 'u1', 'u2']))]))
     # a layer with an unlimited and a limited source, requested outside the range of the limited one
     out.append((cfg({'s0': src(0, ['u0'], True), 's1': src(1, ['u1'], True, res='out'), 's2': src(1, ['u2'], True)},
                     [{'name': 'l0', 'title': 'l0', 'sources': ['s0', 's1']},
@@ -1188,15 +1211,32 @@ def stream_wms(ctx):
                     if cfg.get('concurrency', 1) > 1 and rng.random() < 0.6:
                         used = sorted(set(x for sc in cfg['sources'].values() for x in sc['layers']))
                         if len(used) >= 2:
-                            gate = tuple(rng.sample(used, 2))
+                            gate = tuple(rng.sample(used, min(len(used), rng.choice([2, 3, 3]))))
                     k = rng.choice([1, 1, 2, 2, 3, 3, 4, 5])
                     req_names = [rng.choice(cfg['names']) for _ in range(k)]
                     transparent = rng.random() < 0.5
                     bg = rng.choice([None, (bv(rng), bv(rng), bv(rng))])
                     off = (0, 0) if rng.random() < 0.7 else (rng.randrange(-2, 3), rng.randrange(-2, 3))
                 bbox = (off[0], off[1], off[0] + W, off[1] + W)
-                cur['bbox'] = bbox
-                cur['query'] = query = MapQuery(bbox, size, SRS(4326), 'image/png')
+                # WMSServer.map: a request beyond the SRS extent is answered from the part inside of it
+                qbbox, qsize, placement, outside_extent = bbox, size, None, set()
+                if cfg.get('srs_extent'):
+                    from mapproxy.layer import MapExtent
+                    from mapproxy.image import bbox_position_in_image
+                    ext, qext = MapExtent(cfg['srs_extent'], SRS(4326)), MapExtent(bbox, SRS(4326))
+                    if not ext.contains(qext):
+                        lim = ext.intersection(qext)
+                        qsize, offs, qbbox = bbox_position_in_image(bbox, size, lim.bbox)
+                        placement = []
+                        for j in range(W):
+                            for i in range(W):
+                                if offs[0] <= i < offs[0] + qsize[0] and offs[1] <= j < offs[1] + qsize[1]:
+                                    placement.append((j - offs[1]) * qsize[0] + (i - offs[0]))
+                                else:
+                                    placement.append(None)
+                                    outside_extent.add(j * W + i)
+                cur['bbox'] = qbbox
+                cur['query'] = query = MapQuery(qbbox, qsize, SRS(4326), 'image/png')
                 if avoid_known and not planned and ri < nthis:
                     seen_keys, kept = set(), []
                     for nm in req_names:
@@ -1243,8 +1283,8 @@ def stream_wms(ctx):
                 del world.log[:]
                 added.clear()
                 del add_order[:]
+                world.done = {nm: threading.Event() for nm in (gate or ())}
                 world.gate = gate
-                world.released.clear()
                 try:
                     resp = tapp.get(url, expect_errors=True, extra_environ=env)
                     if resp.status_int != 200 or not resp.content_type.startswith('image/'):
@@ -1264,8 +1304,9 @@ def stream_wms(ctx):
                 merged_log = [by_ids[repr(a[0])].pop(0) for a in adds if by_ids.get(repr(a[0]))]
                 if len(merged_log) == len(log):
                     log = merged_log
-                rep = {'config': cfg, 'authorize_callback': auth, 'upstream_schedule': None if gate is None else
-                       'upstream layer %s answers only after %s has answered' % gate, 'previous_requests_on_this_application': list(history), 'request': url,
+                rep = {'config': cfg, 'sub_query_inside_srs_extent': None if placement is None else [list(qbbox), list(qsize)],
+                       'authorize_callback': auth, 'upstream_schedule': None if gate is None else
+                       'upstream layers answer in the order %s' % (list(gate),), 'previous_requests_on_this_application': list(history), 'request': url,
                        'layers': req_names, 'transparent': transparent, 'bgcolor': bg, 'bbox': bbox,
                        'upstream_requests': log, 'response': obs,
                        'upstream_layers': {k: sorted((list(c), v) for c, v in world.img[k].items()
@@ -1288,11 +1329,13 @@ def stream_wms(ctx):
                 ctx.count('wms:upstream_requests=%d' % len(log))
                 ctx.count('wms:bbox=%s' % ('base' if off == (0, 0) else 'shifted'))
                 ctx.count('wms:concurrent_layer_renderer=%d' % cfg.get('concurrency', 1))
+                ctx.count('wms:request=%s' % ('beyond the SRS extent' if placement is not None else 'plain'))
                 if obs[0] != 'image':
                     ctx.fail('wms,error', 'GetMap failed: %r' % (obs,), rep)
                     continue
                 # ---- oracle: ideal composition of the individually rendered sources
-                oracle_wms(ctx, server, req_names, transparent, bg, world, query, obs, rep, size, bbox, snapshot, confs, auth)
+                oracle_wms(ctx, server, req_names, transparent, bg, world, query, obs, rep, size, bbox, snapshot, confs, auth,
+                           outside_extent)
                 # ---- model
                 if len(adds) != len(log):
                     ctx.problem('harness', 'number of merged images differs from number of upstream requests', rep)
@@ -1306,15 +1349,17 @@ def stream_wms(ctx):
                            'px': raw_pixels(pil),
                            'opts': None if img.image_opts is None else
                            {'transparent': img.image_opts.transparent, 'opacity': img.image_opts.opacity},
-                           'clip': real_mask(size, bbox, cov) if (cov and cov.clip) else None}
+                           'clip': real_mask(qsize, qbbox, cov) if (cov and cov.clip) else None}
                     key = llit(ids)
                     table.append('(%s, %s)' % (key, layer_lit(lay)))
                 o = {'mode': None, 'transparent': transparent, 'bgcolor': bg}
                 log_t = llit(log, lambda e: '(%d, %s)' % (intern['url'].code(e[0]),
                                                           llit([intern['lname'].code(x) for x in e[1]])))
-                terms.append('(%s, %s, %s, %d%%nat, %s, %s, %s)' % (
-                    req_t, auth_t, '[' + '; '.join(table) + ']', n, ropts_lit(o), log_t,
-                    img_lit(obs[1] if obs[1] in ('RGB', 'RGBA', 'P', 'L') else 'L', None, obs[2])))
+                terms.append('(%s, %s, %s, %d%%nat, %s, %s, %s, %s)' % (
+                    req_t, auth_t, '[' + '; '.join(table) + ']', qsize[0] * qsize[1], ropts_lit(o), log_t,
+                    img_lit(obs[1] if obs[1] in ('RGB', 'RGBA', 'P', 'L') else 'L', None, obs[2]),
+                    'None' if placement is None else '(Some %s)' % llit(
+                        placement, lambda k: 'None' if k is None else '(Some %d%%nat)' % k)))
                 descr.append(rep)
     finally:
         H.HTTPClient.open = orig_open
@@ -1363,10 +1408,12 @@ def wms_triggers(server, req_names, transparent, query, world, snapshot, confs=N
     return trig
 
 
-def oracle_wms(ctx, server, req_names, transparent, bg, world, query, obs, rep, size, bbox, snapshot, confs, auth=None):
+def oracle_wms(ctx, server, req_names, transparent, bg, world, query, obs, rep, size, bbox, snapshot, confs, auth=None,
+               outside_extent=()):
     n = size[0] * size[1]
     layers = []
-    skip = set()
+    # pixels outside the SRS extent of the service are not decided by the oracle (MapProxy leaves them transparent)
+    skip = set(outside_extent)
     count = 0
     ideal_srcs = []
     for nm in req_names:
